@@ -5,7 +5,7 @@ runner (harness/impl/core_rt.py) turns them into real classes / objects.
 Systematic part: every leaf type in every container position, to depth 3 (root field ->
 container -> container -> leaf); then random class models.
 """
-import keyword, string, itertools
+import keyword, string, itertools, json
 
 LEAVES = ['bool', 'int', 'float', 'str', 'bytes', 'bytearray', 'uuid', 'decimal', 'path', 'date', 'datetime', 'time',
           'timedelta', 'enum_plain', 'enum_int', 'enum_str', 'literal', 'any', 'none']
@@ -267,8 +267,8 @@ class Gen:
             return {'t': 'td', 'id': i, 'name': 'D%d' % i, 'req': [[a, inner]], 'opt': [[b, {'t': 'int'}]]}
         if ctx == 'nonefirst':
             # Optional[X] written None-first: Union[None, X]
-            if self.opts.get('no_nonefirst') or inner['t'] in ('opt', 'none', 'any', 'union'):
-                return None
+            if self.opts.get('no_nonefirst') or inner['t'] in ('opt', 'none', 'any', 'union') or '"auto_tag"' in json.dumps(inner):
+                return None      # (under Union[None, X] the parsers of X are never built - F55 - so auto tags are never assigned)
             return {'t': 'union', 'es': [{'t': 'none'}, inner]}
         if ctx == 'subdata':
             # nested dataclass Child(Base): the leaf is a field of the BASE class, Child adds one field
